@@ -150,7 +150,9 @@ def model_shallowwater():
     return st.builds(lambda g: dict(name="shallowwater", g=g), st.one_of(st.just(9.81), logf(-1, 2), st.sampled_from([981.0, 32.2, 1.0, 0.01])))
 
 
-GAMMAS = st.one_of(st.sampled_from([1.4, 5.0 / 3.0, 1.1, 2.0, 1.2]), f(1.05, 2.0))
+# usual values, arbitrary ones, and values a hair away from the usual ones (1.66667 is how 5/3 is often typed): exponents such as gamma/(gamma-1) are then close to,
+# but not at, the "nice" numbers
+GAMMAS = st.one_of(st.sampled_from([1.4, 5.0 / 3.0, 1.1, 2.0, 1.2]), f(1.05, 2.0), st.sampled_from([1.66667, 1.666667, 1.400004, 1.99999, 1.25001, 1.3999996, 1.3333]))
 
 
 def model_euler1d():
